@@ -66,6 +66,28 @@ def run(ctx):
         A, B = rand_mat(rng, *shapes[0], False), rand_mat(rng, *shapes[1], False)
         cmds.append("%s %s %s" % (OPS[op_i], mtok(A), mtok(B)))
         descr.append(("bin", op_i, A, B, shapes[0][0], shapes[0][1], shapes[1][0], shapes[1][1]))
+    # member operators of TransMat (sum, difference, scalar multiple) and the product of two SymMat, expressed through the modelled
+    # operations on transposed / full operands: trans(A) + trans(B) = A' + B' etc.
+    def tr(M_, r_, c_):
+        return [[M_[i][j] for i in range(r_)] for j in range(c_)]
+    for _ in range(40 if ctx.quick else 400):
+        k = rng.choice(["tadd", "tsub", "tsc", "symmul"])
+        if k == "symmul":
+            n1 = rng.randint(1, 5)
+            n2 = n1 if rng.random() < 0.85 else rng.randint(1, 5)
+            A = rand_mat(rng, n1, n1, True); B = rand_mat(rng, n2, n2, True)
+            A = [[A[max(i, j)][min(i, j)] for j in range(n1)] for i in range(n1)]
+            B = [[B[max(i, j)][min(i, j)] for j in range(n2)] for i in range(n2)]
+            cmds.append("symmul %s %s" % (mtok(A, n1, n1), mtok(B, n2, n2)))
+            descr.append(("bin", 0, A, B, n1, n1, n2, n2))
+            continue
+        ra, ca = rng.randint(1, 4), rng.randint(1, 4)
+        rb, cb = (ra, ca) if rng.random() < 0.8 else (rng.randint(1, 4), rng.randint(1, 4))
+        A, B = rand_mat(rng, ra, ca, True), rand_mat(rng, rb, cb, True)
+        if k == "tsc":
+            B = A; rb, cb = ra, ca
+        cmds.append("%s %s %s" % (k, mtok(A, ra, ca), mtok(B, rb, cb)))
+        descr.append(("bin", 5 if k == "tsub" else 4, tr(A, ra, ca), tr(B, rb, cb), ca, ra, cb, rb))
     # matrix * vector in the four flavours, as 1-column matrices
     for _ in range(60 if ctx.quick else 400):
         r, c = rng.randint(1, 5), rng.randint(1, 5)
